@@ -3,9 +3,11 @@
    file and configuration.  These recoveries go through Positive-ACK timer expiries: rounds without activity advance the
    clock by [tick] (System.run).  n = number of File Data PDUs of the stream; indices on the sender->receiver direction:
    0 Metadata, 1..n File Data, n+1 EOF, n+2 ACK (Finished); on the receiver->sender direction: 0 ACK (EOF), 1 Finished.
-   The claim is delivery (delivered_ok): a late duplicate may legitimately be refused by a handler with a protocol
-   exception (y_errs need not be empty: e.g. the second ACK (EOF) reaches a sender that no longer waits for it).
-   DRAFT: the prover fixes hypotheses (e.g. tick versus the timer intervals) after evaluating the model. *)
+   The claim is delivery (delivered_ok): a late PDU may legitimately be refused by a handler with a protocol
+   exception (y_errs need not be empty: after a lost ACK (EOF) the Finished PDU reaches a sender that still waits for
+   the ACK (EOF) and refuses it with PduIgnoredForSource).
+   No relation between [tick] and the timer intervals is assumed: as many idle rounds pass as the timer in question
+   needs.  Neither the NAK timer, the NAK limit nor the receiver's maximum packet length matter (no data is lost). *)
 From CFDP Require Import Base LostSeg Fs Crc Checksum Handler Dest Source SourceSpec System.
 From CFDP.proofs Require Import ControlLossProofs.
 
@@ -19,18 +21,17 @@ Theorem c03_control_pdu_loss :
   get_remote (l_remotes cs) (pr_dst p) = Some rs ->
   pr_names p = Some (sn, dn) -> sn <> [] -> dn <> [] -> pr_msgs p = None ->
   (match pr_mode p with Some m => m | None => r_mode rs end) = ACKED ->
-  (* limits exceed the number of faults (K = 1) *)
-  2 <= r_ack_limit rs -> 2 <= r_ack_limit rd -> 2 <= r_nak_limit rd -> 0 < tick -> 0 < r_nak_ms rd ->
-  (* the maximum packet length the receiver has configured for the sender has room for the fixed part of a NAK PDU
-     (header, directive code, start and end of scope, CRC): the deferred lost-segment procedure sizes its NAK PDUs
-     with it and raises ValueError otherwise — the receiver then never requests the missing data
-     (counterexample: SingleLossProofs.max_packet_counterexample) *)
-  4 + 2 * w + bits / 8 + 1 + (if r_crc rs then 2 else 0) + 2 * (if large then 8 else 4) <= r_max_packet rd ->
+  (* the Positive-ACK limits exceed the number of faults (K = 1); every idle round advances the clocks *)
+  2 <= r_ack_limit rs -> 2 <= r_ack_limit rd -> 0 < tick ->
   (* the lost PDU: EOF or ACK (Finished) on the way to the receiver, ACK (EOF) or Finished on the way back *)
   let n := (zlen data + seg - 1) / seg in
   (ft = mkFault 0 (n + 1) 0 0 \/ ft = mkFault 0 (n + 2) 0 0 \/ ft = mkFault 1 0 0 0 \/ ft = mkFault 1 1 0 0) ->
-  (* one idle round lets a pending timer expire *)
-  r_ack_ms rs <= tick -> r_ack_ms rd <= tick -> r_nak_ms rd <= tick ->
+  (* lost ACK (EOF) only: the sender's Positive-ACK timer does not expire in a later idle round than the receiver's
+     (both are started at the same clock reading; true if r_ack_ms rs <= r_ack_ms rd, and if both intervals are <= tick).
+     The sender refuses the Finished PDU until it has the ACK (EOF); a receiver whose timer expires earlier re-sends the
+     Finished PDU into that refusal, reaches its limit and gives the transaction up, and the sender is left waiting for
+     a Finished PDU forever (counterexample: ControlLossProofs.ack_eof_timer_counterexample) *)
+  (ft = mkFault 1 0 0 0 -> forall j, 0 <= j -> r_ack_ms rd <= j * tick -> r_ack_ms rs <= j * tick) ->
   (* the Positive-ACK timer intervals of both entities are positive: with an interval <= 0 the timer has expired in
      the very call that starts it (sender: Positive ACK Limit fault when the limit is 1; receiver: a second Finished
      PDU is prepared before the first was retrieved -> UnretrievedPdusToBeSent) *)
